@@ -252,9 +252,12 @@ class KeyboardMatrix:
         state = self._key_states.get(key_code)
         if not state:
             return
+        self._pressed_keys.discard(key_code)
+        if not state.pressed:
+            # Releasing an already released key must not restart its release debounce.
+            return
         state.pressed = False
         state.release_ticks = 0
-        self._pressed_keys.discard(key_code)
 
     def release_all_keys(self) -> None:
         for state in self._key_states.values():
